@@ -29,7 +29,9 @@ RULE = ('cases = (tree by level/branching profile incl. single-child chains '
         'of 300-600 (thorough: 70 000) columns with markers beyond column '
         '255 (65 535) against references of <= 255 / exactly 255 / 256 '
         '(300) genes, '
-        'min_markers in 0..6); pipeline cases add flatten / drop_level and a '
+        'min_markers in 0..6); sessions of 2-5 cases served by ONE '
+        'TaxonomyTree object (incl. parent and nearest ancestor both below '
+        'min_markers); pipeline cases add flatten / drop_level and a '
         'query matrix.  non-trivial = some consulted non-root parent has '
         'fewer than min_markers own markers in the query (fallback '
         'exercised); distinct by canonical JSON')
@@ -295,6 +297,96 @@ def check_unit(ctx, case, label, workdir, metamorphic=True, use_model=True):
                                 'create_marker_cache_from_specified_markers'),
                     found_input=False)
     return c_verdict
+
+
+# ---------------------------------------------------------------------------
+# object reuse: several reconciliations with the SAME TaxonomyTree object
+# ---------------------------------------------------------------------------
+
+def check_session(ctx, d, workdir):
+    """d: kind=session, tree, steps[{entries, Q, R, m}].  One TaxonomyTree
+    object serves every step (as in a process that reconciles several marker
+    tables / queries against one taxonomy).  After every call the tree's
+    public answers and the marker_lookup argument must be unchanged, and every
+    step must meet the specification exactly as a fresh tree would."""
+    tt = treeio.impl_tree(d['tree'])
+    snap0 = mu.tree_snapshot(tt)
+    ctx.count('session:steps=%d' % len(d['steps']))
+    for j, step in enumerate(d['steps']):
+        case = dict(step)
+        case['tree'] = d['tree']
+        history = {'kind': 'session', 'tree': d['tree'],
+                   'steps': d['steps'][:j + 1], 'failing_step': j}
+        exp = mu.expectation(case)
+        # accessors between the calls, as a caller would use them
+        for p in tt.all_parents[:3]:
+            if p is not None:
+                tt.parents(p[0], p[1])
+        v_verdict, v_out, untouched = mu.impl_validate(case, tt=tt)
+        snap1 = mu.tree_snapshot(tt)
+        c_verdict, cache, ser = mu.impl_create_cache(case, workdir, tt=tt,
+                                                     name='session.h5')
+        snap2 = mu.tree_snapshot(tt)
+        ctx.case(ckey(case, 's%d' % j) if mu.case_nontrivial(case) else None,
+                 sample=None)
+        ctx.count('session:verdict=' + c_verdict.split(':')[0])
+        if not untouched:
+            ctx.violation('C08/isolation/lookup-mutated',
+                          'validate_marker_lookup changed its marker_lookup '
+                          'argument (call %d)' % (j + 1), history)
+        for name, snap in (('validate_marker_lookup', snap1),
+                           ('create_marker_cache_from_specified_markers',
+                            snap2)):
+            if snap != snap0:
+                field = [k for k in snap0 if snap[k] != snap0[k]][0]
+                ctx.violation(
+                    'C08/isolation/tree-mutated',
+                    '%s changed the TaxonomyTree it was given: %s was %r, '
+                    'is %r after call %d'
+                    % (name, field, snap0[field][:4], snap[field][:4], j + 1),
+                    dict(history, field=field))
+                break
+        # the specification, exactly as for a fresh tree
+        if exp['must_fail'] and c_verdict == 'ok':
+            ctx.violation('C08/errors/accepted/' + exp['must_fail'][0],
+                          'call %d on a reused tree proceeds although: %s'
+                          % (j + 1, exp['must_fail']), history)
+        elif c_verdict != 'ok' and not exp['must_fail'] \
+                and not exp['may_fail']:
+            ctx.violation('C08/errors/rejected-valid/'
+                          + c_verdict.split(':')[0],
+                          'call %d on a reused tree refuses a valid table: %s'
+                          % (j + 1, c_verdict), history)
+        elif c_verdict == 'ok':
+            bad = predicate_cache(case, exp, cache, ser)
+            if bad:
+                ctx.violation(bad[0], 'step %d of a session on ONE '
+                              'TaxonomyTree object (each step calls '
+                              'validate_marker_lookup, then create_marker_'
+                              'cache_from_specified_markers, with it): %s'
+                              % (j + 1, bad[1]), history)
+        if v_verdict != 'ok' and c_verdict != v_verdict:
+            ctx.violation('C08/errors/validate-vs-create',
+                          'call %d: validate says %s, create says %s'
+                          % (j + 1, v_verdict, c_verdict), history,
+                          found_input=False)
+        # model (stateless by construction) on the same step
+        if ctx.driver_ok and v_verdict == 'ok':
+            can = mu.Canon(case)
+            mv = ctx.model('markers.validate', {
+                'tree': can.tree_json, 'lookup': can.lookup(case['entries']),
+                'Q': can.ids(case['Q']), 'm': case['m']})
+            if 'err' in mv or can.unlookup(mv['ok']) != {
+                    k: list(v) for k, v in v_out.items()}:
+                ctx.disagreements_checked += 1
+                ctx.violation(
+                    'C08/correspondence/validate-reused-tree',
+                    'correspondence markers.validate no longer checks on '
+                    'call %d with a reused tree' % (j + 1),
+                    dict(history, model=mv, impl_out=v_out,
+                         broken='correspondence CTM.Markers.validateLookup ~ '
+                                'validate_marker_lookup (object reuse)'),
+                    found_input=False)
 
 
 # ---------------------------------------------------------------------------
@@ -613,6 +705,10 @@ def run(ctx):
             if i % 4 == 0:
                 for label, c2 in one_edit_variants(rng, case):
                     check_unit(ctx, c2, label, d, metamorphic=False)
+    n_sess = 40 if ctx.tier == 'quick' else 400
+    with pipeline.workdir('ctmverif_c08s_') as d:
+        for i in range(n_sess):
+            check_session(ctx, mu.gen_session(rng), d)
     if ctx.tier == 'thorough':
         # around the 16-bit boundary: 300 reference genes (indices fit
         # uint16), 70 000 query columns, markers beyond column 65 535;
@@ -726,5 +822,11 @@ def replay(ctx, data, workdir=None):
             check_unit(ctx, d['case'], d.get('label', 'corpus'), workdir)
     elif kind == 'pipeline':
         check_pipeline(ctx, d['case'], d.get('label', 'replay'))
+    elif kind == 'session':
+        if workdir is None:
+            with pipeline.workdir('ctmverif_c08r_') as w:
+                check_session(ctx, d, w)
+        else:
+            check_session(ctx, d, workdir)
     elif workdir is None:
         print('nothing to replay for kind', kind)
